@@ -553,8 +553,16 @@ func genGeneralX(r *hx.Rng, force *xform) string {
 		rotateStart(r, a)
 		rotateStart(r, b)
 		op := hx.Pick(r, ops)
-		if r.Chance(1, 6) && len(a) > 0 && len(b) > 0 { // the combined region is PROVABLY empty (EO.emptyCert)
+		special := false
+		if r.Chance(1, 7) && len(a) > 0 && len(b) > 0 { // the combined region is PROVABLY empty (EO.emptyCert)
 			op, a, b = emptyRegion(r, ft, a, b)
+			special = true
+		} else if r.Chance(1, 5) && len(a) > 0 && len(b) > 0 { // disjoint / nested with OVERLAPPING boxes: the sweep decides
+			op, a, b = disjointOverlap(r, ft, a, b)
+			special = true
+		}
+		if !special && len(a) > 0 && len(b) > 0 && abCrossings(a, b) == 0 && r.Chance(3, 4) {
+			continue // most regular calls are pairs whose boundaries cross
 		}
 		if r.Chance(1, 4) && !sameFPoly(a, b) { // coordinates that differ by 1e-5 … 1e-9 without being equal
 			nudge(r, ft, a, b)
